@@ -18,6 +18,12 @@ Contents
 * `Settled`, phase extraction from `Inv`
 * the session data through a step (`Track`: `fireDue_track`, `step_track`)
 * running states (`Running`, `Benign`: `fireDue_running`, `step_running`, `run_running`)
+* sessions (`Frame`: `Open` is the only place where the range changes and the record of finally ended vBuckets
+  `endedVbs` is reset; `step_frame`)
+* the count: for every run `PhA.activeLe` / `PhW.activeLe` / `PhC.activeLe` (`active + |endedVbs| ≤ |vbs lo hi|`
+  while open, `active ≤ 0` once closed); under the server hypothesis `EndOk` the exact count `Exact`
+  (`active = |vbs lo hi| − |endedVbs|`, `endedVbs ⊆ vbs lo hi` while open; `active = 0` once closed):
+  `closeCore_active_zero`, `step_exact`, `run_exact`, `window_active_zero`
 -/
 namespace GoDcp.Life
 open GoDcp
@@ -360,6 +366,10 @@ structure PhA (s : LSt) : Prop where
   keys : AMap.keys s.pos = vbs s.lo s.hi
   next : ∀ vb, s.nextSeq.get? vb = (s.pos.get? vb).map (· + 1)
   dirtyFlag : s.anyDirty = false → s.dirty = []
+  -- the session count, as far as it holds for EVERY run: a vBucket is recorded once as finally ended, and every
+  -- recorded one has decremented the count (equality and `endedVbs ⊆ vbs lo hi` need the server hypothesis: `Exact`)
+  endedNodup : s.endedVbs.Nodup
+  activeLe : s.active + (s.endedVbs.length : Int) ≤ ((vbs s.lo s.hi).length : Int)
 
 /-- the part of the rebalance window that holds from the end of `Close` on -/
 structure PhW (s : LSt) : Prop where
@@ -371,6 +381,8 @@ structure PhW (s : LSt) : Prop where
   lockHeld : s.lockHeld = true
   pos : s.pos = []
   cwc : s.closeWithCancel = false
+  -- every stream the server still had has answered the close with its `End` (exactly 0 under `Exact`)
+  activeLe : s.active ≤ 0
 
 /-- phase B: the rebalance window (closed, lock held, exactly one reopen timer pending, pointed to) -/
 def PhB (s : LSt) : Prop := PhW s ∧ OneReb s
@@ -390,6 +402,7 @@ structure PhC (s : LSt) : Prop where
   noReb : NoReb s
   stop : s.stopClosed = true
   pos : s.pos = []
+  activeLe : s.active ≤ 0
 
 /-- the phase invariant -/
 inductive Inv (s : LSt) : Prop
@@ -447,6 +460,91 @@ theorem vbs_nodup (lo hi : Nat) : (vbs lo hi).Nodup := by
   unfold vbs
   exact List.Pairwise.map _ (fun a b h => by omega) List.nodup_range
 
+/-! ## counting the streams the server still has -/
+
+theorem filter_ne_length {m : List Nat} {a : Nat} (hm : m.Nodup) (ha : a ∈ m) :
+    (m.filter (fun x => x != a)).length + 1 = m.length := by
+  induction m with
+  | nil => simp at ha
+  | cons x r ih =>
+    simp only [List.nodup_cons] at hm
+    by_cases hx : x = a
+    · subst hx
+      have : r.filter (fun y => y != x) = r := by
+        apply List.filter_eq_self.2
+        intro y hy
+        have : y ≠ x := fun e => hm.1 (e ▸ hy)
+        simpa using this
+      simp [this]
+    · have har : a ∈ r := by
+        rcases List.mem_cons.1 ha with e | e
+        · exact absurd e.symm hx
+        · exact e
+      simp [hx, ih hm.2 har]
+
+theorem filter_ne_length_le {m : List Nat} (a : Nat) (hm : m.Nodup) :
+    m.length ≤ (m.filter (fun x => x != a)).length + 1 := by
+  by_cases ha : a ∈ m
+  · have := filter_ne_length hm ha; omega
+  · have : m.filter (fun x => x != a) = m := by
+      apply List.filter_eq_self.2
+      intro y hy
+      have : y ≠ a := fun e => ha (e ▸ hy)
+      simpa using this
+    rw [this]; omega
+
+theorem filter_notin_cons (a : Nat) (r l : List Nat) :
+    l.filter (fun x => !(a :: r).contains x) = (l.filter (fun x => !r.contains x)).filter (fun x => x != a) := by
+  rw [List.filter_filter]
+  apply List.filter_congr
+  intro x _
+  by_cases hxa : x = a <;> simp [hxa]
+
+/-- distinct elements `e` of a duplicate-free list `l`: the rest has `|l| − |e|` elements -/
+theorem filter_notin_length (e l : List Nat) (he : e.Nodup) (hsub : ∀ x ∈ e, x ∈ l) (hl : l.Nodup) :
+    (l.filter (fun x => !e.contains x)).length + e.length = l.length := by
+  induction e generalizing l with
+  | nil => simp
+  | cons a r ih =>
+    simp only [List.nodup_cons] at he
+    have hrl : ∀ x ∈ r, x ∈ l := fun x hx => hsub x (List.mem_cons_of_mem _ hx)
+    have ih' := ih l he.2 hrl hl
+    have hnd : (l.filter (fun x => !r.contains x)).Nodup := List.Nodup.sublist List.filter_sublist hl
+    have ha : a ∈ l.filter (fun x => !r.contains x) := by
+      simp [List.mem_filter, hsub a List.mem_cons_self, he.1]
+    have := filter_ne_length hnd ha
+    rw [filter_notin_cons, List.length_cons]
+    omega
+
+/-- any `e`: at most `|e|` elements of a duplicate-free list are removed -/
+theorem filter_notin_length_le (e l : List Nat) (hl : l.Nodup) :
+    l.length ≤ (l.filter (fun x => !e.contains x)).length + e.length := by
+  induction e with
+  | nil =>
+    have : l.filter (fun x => !([] : List Nat).contains x) = l := List.filter_eq_self.2 (by simp)
+    rw [this]; simp
+  | cons a r ih =>
+    have hnd : (l.filter (fun x => !r.contains x)).Nodup := List.Nodup.sublist List.filter_sublist hl
+    have := filter_ne_length_le a hnd
+    rw [filter_notin_cons, List.length_cons]
+    omega
+
+/-- the offsets entries whose vBucket stream the server still has: only these answer `CloseStream` with an `End` -/
+def live (s : LSt) : List (Nat × Nat) := s.pos.filter fun (vb, _) => !s.endedVbs.contains vb
+
+theorem live_length (s : LSt) :
+    (live s).length = ((AMap.keys s.pos).filter fun vb => !s.endedVbs.contains vb).length := by
+  unfold live AMap.keys
+  rw [List.filter_map, List.length_map]
+  rfl
+
+/-- every run: the count never exceeds the number of streams the server still has -/
+theorem PhA.active_le_live {s : LSt} (h : PhA s) : s.active ≤ ((live s).length : Int) := by
+  have := filter_notin_length_le s.endedVbs (vbs s.lo s.hi) (vbs_nodup _ _)
+  have h2 := h.activeLe
+  rw [live_length, h.keys]
+  omega
+
 theorem doOpen_out (s : LSt) :
     (doOpen s).2 = [.cb .BSS] ++ ((vbs s.memLo s.memHi).map fun vb => LObs.openreq vb ((s.store.get? vb).getD 0))
       ++ [.cb .ASS] := by
@@ -474,7 +572,7 @@ theorem doOpen_data (s : LSt) :
 
 /-- `Close` on a non-nil observers map -/
 def closeCore (s : LSt) (cancel : Bool) : LSt × List LObs :=
-  let n : Int := s.pos.length
+  let n : Int := (live s).length
   let act := s.active - n
   let s1 := { s with closeWithCancel := cancel, closedObs := true, active := act }
   let (s2, o2) :=
@@ -548,7 +646,12 @@ theorem doClose_eq (s : LSt) (cancel : Bool) :
   simp only [closeCore, waitFires]; (repeat' split) <;> rfl
 @[simp] theorem closeCore_closeWithCancel (s : LSt) (c : Bool) : (closeCore s c).1.closeWithCancel = c := by
   simp only [closeCore, waitFires]; (repeat' split) <;> rfl
-@[simp] theorem closeCore_active (s : LSt) (c : Bool) : (closeCore s c).1.active = s.active - (s.pos.length : Int) := by
+@[simp] theorem closeCore_endedVbs (s : LSt) (c : Bool) : (closeCore s c).1.endedVbs = s.endedVbs := by
+  simp only [closeCore, waitFires]; (repeat' split) <;> rfl
+/-- only the streams the server still has answer `CloseStream` with an `End`: the count drops by the number of
+    offsets entries whose vBucket has not finally ended -/
+@[simp] theorem closeCore_active (s : LSt) (c : Bool) :
+    (closeCore s c).1.active = s.active - ((live s).length : Int) := by
   simp only [closeCore, waitFires]; (repeat' split) <;> rfl
 
 /-- shape of the output of `Close`; `stop` needs `!balancing` -/
@@ -592,9 +695,9 @@ theorem obsRun_close_final (s : LSt) (c : Bool) (p : Nat) (hp : cbStep p .BSP = 
 theorem PhW.congr {s s' : LSt} (h : PhW s) (e1 : s'.everOpened = s.everOpened) (e2 : s'.isOpen = s.isOpen)
     (e3 : s'.obsNil = s.obsNil) (e4 : s'.closedObs = s.closedObs) (e5 : s'.balancing = s.balancing)
     (e6 : s'.lockHeld = s.lockHeld) (e8 : s'.pos = s.pos)
-    (e9 : s'.closeWithCancel = s.closeWithCancel) : PhW s' :=
+    (e9 : s'.closeWithCancel = s.closeWithCancel) (e10 : s'.active = s.active) : PhW s' :=
   ⟨e1 ▸ h.everOpened, e2 ▸ h.isOpen, e3 ▸ h.obsNil, e4 ▸ h.closedObs, e5 ▸ h.balancing, e6 ▸ h.lockHeld,
-   e8 ▸ h.pos, e9 ▸ h.cwc⟩
+   e8 ▸ h.pos, e9 ▸ h.cwc, e10 ▸ h.activeLe⟩
 
 theorem rebalanceLocked_streaming (s : LSt) (a : Nat) (hn : s.obsNil = false) (hb : s.balancing = false)
     (hd : s.dead = false) :
@@ -612,21 +715,28 @@ theorem TimersOk_after_close {s : LSt} (c : Bool) (ok : TimersOk s) : TimersOk (
   ⟨fun t ht => by simp at ht ⊢; exact ok.lt t ht, fun t ht u hu => by simp at ht hu; exact ok.uniq t ht u hu⟩
 
 /-- the window right after `Close` inside a `Rebalance()` that started from a streaming state -/
-theorem PhM_after_close {s : LSt} (he : s.everOpened = true) (hn : NoReb s) :
+theorem PhM_after_close {s : LSt} (he : s.everOpened = true) (hn : NoReb s)
+    (hle : s.active ≤ ((live s).length : Int)) :
     PhM (closeCore { s with lockHeld := true, balancing := true } false).1 := by
-  refine ⟨⟨by simp [he], by simp, by simp, by simp, by simp, by simp, by simp, by simp⟩, ?_⟩
-  intro t ht; simp at ht; exact hn t ht
+  refine ⟨⟨by simp [he], by simp, by simp, by simp, by simp, by simp, by simp, by simp, ?_⟩, ?_⟩
+  · rw [closeCore_active]
+    have : live { s with lockHeld := true, balancing := true } = live s := rfl
+    rw [this]
+    show s.active - ((live s).length : Int) ≤ 0
+    omega
+  · intro t ht; simp at ht; exact hn t ht
 
 theorem PhB_of_PhM_arm {s : LSt} (h : PhM s) (a d : Nat) : PhB (armTimer s a .reb d) :=
-  ⟨h.1.congr rfl rfl rfl rfl rfl rfl rfl rfl, h.2.arm_reb a d⟩
+  ⟨h.1.congr rfl rfl rfl rfl rfl rfl rfl rfl rfl, h.2.arm_reb a d⟩
 
 /-- `Rebalance()` that gets the lock on a streaming stream: close, arm the reopen timer; window reached -/
 theorem rebalanceLocked_from_streaming {s : LSt} (a : Nat) (ok : TimersOk s) (hd : s.dead = false)
-    (he : s.everOpened = true) (hn : s.obsNil = false) (hb : s.balancing = false) (hnr : NoReb s) :
+    (he : s.everOpened = true) (hn : s.obsNil = false) (hb : s.balancing = false) (hnr : NoReb s)
+    (hle : s.active ≤ ((live s).length : Int)) :
     PhB (rebalanceLocked s a).1 ∧ TimersOk (rebalanceLocked s a).1 ∧ (rebalanceLocked s a).1.dead = false ∧
       obsRun 2 (rebalanceLocked s a).2 = some 6 ∧ (rebalanceLocked s a).1.queuedCalls = s.queuedCalls := by
   rw [rebalanceLocked_streaming s a hn hb hd]
-  have hm := PhM_after_close he hnr
+  have hm := PhM_after_close he hnr hle
   have hok := TimersOk_after_close false (s := { s with lockHeld := true, balancing := true }) ⟨ok.lt, ok.uniq⟩
   have hrun := obsRun_close_rebalance { s with lockHeld := true, balancing := true } false rfl
   have hdead : (closeCore { s with lockHeld := true, balancing := true } false).1.dead = false := by simp [hd]
@@ -664,7 +774,7 @@ theorem debounce_window {s : LSt} (a : Nat) (ok : TimersOk s) (h : PhB s) :
       PhB (setTimer s { t with deadline := a + s.delay }) ∧ TimersOk (setTimer s { t with deadline := a + s.delay }) := by
   obtain ⟨t, ht, hptr, hpend, hkind, huniq⟩ := h.2
   have hf := findTimer_of_mem ok ht
-  refine ⟨t, ht, hptr, hpend, hkind, ?_, ⟨h.1.congr rfl rfl rfl rfl rfl rfl rfl rfl, ?_⟩, ok.setTimer ht rfl⟩
+  refine ⟨t, ht, hptr, hpend, hkind, ?_, ⟨h.1.congr rfl rfl rfl rfl rfl rfl rfl rfl rfl, ?_⟩, ok.setTimer ht rfl⟩
   · exact debounce_pending a t.id h.1.balancing hptr hf hpend
   · exact OneReb.reset h.2 ok hptr hf
 
@@ -683,7 +793,7 @@ theorem duringClose_succ (s : LSt) (a k : Nat) :
 theorem absorb_PhM {s : LSt} (a : Nat) (ok : TimersOk s) (hd : s.dead = false) (h : PhM s) :
     PhM (absorb s a).1 ∧ TimersOk (absorb s a).1 ∧ (absorb s a).1.dead = false ∧ (∀ o ∈ (absorb s a).2, Neutral o) := by
   have hq : PhM { s with queuedCalls := s.queuedCalls + 1 } ∧ TimersOk { s with queuedCalls := s.queuedCalls + 1 } :=
-    ⟨⟨h.1.congr rfl rfl rfl rfl rfl rfl rfl rfl, h.2⟩, ⟨ok.lt, ok.uniq⟩⟩
+    ⟨⟨h.1.congr rfl rfl rfl rfl rfl rfl rfl rfl rfl, h.2⟩, ⟨ok.lt, ok.uniq⟩⟩
   rcases hp : s.timerPtr with _ | id
   · rw [absorb, debounce_no_ptr a hp]
     exact ⟨hq.1, hq.2, hd, by simp [Neutral]⟩
@@ -693,10 +803,10 @@ theorem absorb_PhM {s : LSt} (a : Nat) (ok : TimersOk s) (hd : s.dead = false) (
     · have ⟨htm, _⟩ := findTimer_some hf
       rcases hpend : t.pending with _ | _
       · rw [absorb, debounce_fired a id h.1.balancing hp hf hpend]
-        exact ⟨⟨h.1.congr rfl rfl rfl rfl rfl rfl rfl rfl, h.2.armReb _ _⟩, ok.armTimer _ _ _, hd,
+        exact ⟨⟨h.1.congr rfl rfl rfl rfl rfl rfl rfl rfl rfl, h.2.armReb _ _⟩, ok.armTimer _ _ _, hd,
           by simp [Neutral]⟩
       · rw [absorb, debounce_pending a id h.1.balancing hp hf hpend]
-        refine ⟨⟨h.1.congr rfl rfl rfl rfl rfl rfl rfl rfl, NoReb.setTimer h.2 ?_⟩, ok.setTimer htm rfl, hd,
+        refine ⟨⟨h.1.congr rfl rfl rfl rfl rfl rfl rfl rfl rfl, NoReb.setTimer h.2 ?_⟩, ok.setTimer htm rfl, hd,
           by simp [Neutral]⟩
         intro _; exact h.2 t htm hpend
 
@@ -771,7 +881,7 @@ theorem callRebalance_good {s : LSt} (a : Nat) (h : Inv s) (hd : s.dead = false)
     exact Good.of_dead rfl "nil-observers" (by simp)
   | A _ ok h =>
     rw [callRebalance_streaming a h.balancing h.lockHeld]
-    obtain ⟨hB, hok, hd', hrun, _⟩ := rebalanceLocked_from_streaming a ok hd h.everOpened h.obsNil h.balancing h.noReb
+    obtain ⟨hB, hok, hd', hrun, _⟩ := rebalanceLocked_from_streaming a ok hd h.everOpened h.obsNil h.balancing h.noReb h.active_le_live
     exact Good.of_live hd hd' (.B hd' hok hB) (by rw [h.code, hB.1.code]; exact hrun)
   | B _ ok h =>
     obtain ⟨t, _, _, _, _, hdb, hB, hok⟩ := debounce_window a ok h
@@ -811,7 +921,7 @@ theorem notifyOverlapped_good {s : LSt} (k : Nat) (h : Inv s) (hd : s.dead = fal
     exact Good.of_dead rfl "nil-observers" (by simp)
   | A _ ok h =>
     rw [notifyOverlapped_streaming s k h.balancing h.lockHeld h.obsNil]
-    have hm := PhM_after_close h.everOpened h.noReb
+    have hm := PhM_after_close h.everOpened h.noReb h.active_le_live
     have hok := TimersOk_after_close false (s := { s with lockHeld := true, balancing := true }) ⟨ok.lt, ok.uniq⟩
     have hrun := obsRun_close_rebalance { s with lockHeld := true, balancing := true } false rfl
     have hdead : (closeCore { s with lockHeld := true, balancing := true } false).1.dead = false := by simp [hd]
@@ -844,10 +954,20 @@ theorem PhA_of_open (s : LSt) (r q : Nat) (hq : q = 0) (hc : s.closeWithCancel =
   keys := (doOpen_data s).1
   next := (doOpen_data s).2
   dirtyFlag := fun _ => rfl
+  endedNodup := List.nodup_nil
+  activeLe := by simp [doOpen]
 
 /-- the stream object right after the reopen in `rebalance()`, with `q` calls still queued on the lock -/
 def reopened (s : LSt) (q : Nat) : LSt :=
   { (doOpen s).1 with rebalances := s.rebalances + 1, balancing := false, lockHeld := false, queuedCalls := q }
+
+/-- a fresh session: the server has every requested stream -/
+theorem reopened_active_live (s : LSt) (q : Nat) : (reopened s q).active = ((live (reopened s q)).length : Int) := by
+  have : live (reopened s q) = (reopened s q).pos := by
+    unfold live
+    exact List.filter_eq_self.2 (fun p _ => by simp [reopened, doOpen])
+  rw [this]
+  simp [reopened, doOpen]
 
 theorem rebalanceFires_queued (s : LSt) (a : Nat) (hq : s.queuedCalls > 0) :
     rebalanceFires s a = ((rebalanceLocked (reopened s (s.queuedCalls - 1)) a).1,
@@ -868,6 +988,7 @@ theorem rebalanceFires_good {s : LSt} (a : Nat) (ok : TimersOk s) (hd : s.dead =
   · rw [rebalanceFires_queued s a hq]
     obtain ⟨hB, hok, hd', hrun, _⟩ := rebalanceLocked_from_streaming
       (s := reopened s (s.queuedCalls - 1)) a ⟨ok.lt, ok.uniq⟩ hd rfl rfl rfl h.2
+      (Int.le_of_eq (reopened_active_live _ _))
     refine Good.of_live hd hd' (.B hd' hok hB) ?_
     rw [h.1.code, hB.1.code]
     exact obsRun_append_of hopen hrun
@@ -927,11 +1048,11 @@ theorem fireOne_good {s : LSt} {t : Timer} (h : Inv s) (hd : s.dead = false) (ht
   | C _ ok h => exact hReb (.C hd (ok' ok) { h with noReb := h.noReb.fire t }) (h.noReb t ht hp)
   | B _ ok h =>
     cases hk : t.kind with
-    | Reb => exact hReb (.B hd (ok' ok) ⟨h.1.congr rfl rfl rfl rfl rfl rfl rfl rfl, h.2.fire_Reb ok ht hk⟩) hk
+    | Reb => exact hReb (.B hd (ok' ok) ⟨h.1.congr rfl rfl rfl rfl rfl rfl rfl rfl rfl, h.2.fire_Reb ok ht hk⟩) hk
     | reb =>
       rw [fireOne_reb s hk]
       exact Good.of_code (s := s) (rebalanceFires_good t.deadline (ok' ok) hd
-        ⟨h.1.congr rfl rfl rfl rfl rfl rfl rfl rfl, h.2.fire_reb ht hp hk⟩) rfl rfl
+        ⟨h.1.congr rfl rfl rfl rfl rfl rfl rfl rfl rfl, h.2.fire_reb ht hp hk⟩) rfl rfl
 
 /-- every fuel: firing due timers keeps the invariant and the monitor accepts what they emit -/
 theorem fireDue_good (upto fuel : Nat) {s : LSt} (h : Inv s) :
@@ -976,9 +1097,9 @@ theorem PhPre.congr {s s' : LSt} (h : PhPre s) (e1 : s'.everOpened = s.everOpene
 theorem PhC.congr {s s' : LSt} (h : PhC s) (e1 : s'.everOpened = s.everOpened) (e2 : s'.isOpen = s.isOpen)
     (e3 : s'.obsNil = s.obsNil) (e4 : s'.closedObs = s.closedObs) (e5 : s'.balancing = s.balancing)
     (e6 : s'.lockHeld = s.lockHeld) (e7 : s'.queuedCalls = s.queuedCalls) (e8 : s'.timers = s.timers)
-    (e9 : s'.stopClosed = s.stopClosed) (e10 : s'.pos = s.pos) : PhC s' :=
+    (e9 : s'.stopClosed = s.stopClosed) (e10 : s'.pos = s.pos) (e11 : s'.active = s.active) : PhC s' :=
   ⟨e1 ▸ h.everOpened, e2 ▸ h.isOpen, e3 ▸ h.obsNil, e4 ▸ h.closedObs, e5 ▸ h.balancing, e6 ▸ h.lockHeld,
-   e7 ▸ h.queued, h.noReb.congr e8, e9 ▸ h.stop, e10 ▸ h.pos⟩
+   e7 ▸ h.queued, h.noReb.congr e8, e9 ▸ h.stop, e10 ▸ h.pos, e11 ▸ h.activeLe⟩
 
 /-- the control part of phase A is kept; the data part is supplied -/
 theorem PhA.congr {s s' : LSt} (h : PhA s) (e1 : s'.everOpened = s.everOpened) (e2 : s'.isOpen = s.isOpen)
@@ -988,9 +1109,11 @@ theorem PhA.congr {s s' : LSt} (h : PhA s) (e1 : s'.everOpened = s.everOpened) (
     (fwe : s'.finishedWithEnd = true → s'.stopClosed = true)
     (keys : AMap.keys s'.pos = vbs s'.lo s'.hi)
     (next : ∀ vb, s'.nextSeq.get? vb = (s'.pos.get? vb).map (· + 1))
-    (dirtyFlag : s'.anyDirty = false → s'.dirty = []) : PhA s' :=
+    (dirtyFlag : s'.anyDirty = false → s'.dirty = [])
+    (endedNodup : s'.endedVbs.Nodup)
+    (activeLe : s'.active + (s'.endedVbs.length : Int) ≤ ((vbs s'.lo s'.hi).length : Int)) : PhA s' :=
   ⟨e1 ▸ h.everOpened, e2 ▸ h.isOpen, e3 ▸ h.obsNil, e4 ▸ h.closedObs, e5 ▸ h.balancing, e6 ▸ h.lockHeld,
-   e7 ▸ h.queued, h.noReb.congr e8, e9 ▸ h.cwc, e10 ▸ h.fwc, fwe, keys, next, dirtyFlag⟩
+   e7 ▸ h.queued, h.noReb.congr e8, e9 ▸ h.cwc, e10 ▸ h.fwc, fwe, keys, next, dirtyFlag, endedNodup, activeLe⟩
 
 /-- all fields the invariant and the monitor state depend on are unchanged -/
 structure SameCtl (s s' : LSt) : Prop where
@@ -1014,6 +1137,8 @@ structure SameCtl (s s' : LSt) : Prop where
   nextSeq : s'.nextSeq = s.nextSeq
   anyDirty : s'.anyDirty = s.anyDirty
   dirty : s'.dirty = s.dirty
+  active : s'.active = s.active
+  endedVbs : s'.endedVbs = s.endedVbs
   dead : s'.dead = s.dead
 
 theorem code_congr {s s' : LSt} (e : SameCtl s s') : code s' = code s := by
@@ -1029,19 +1154,21 @@ theorem Inv.congr {s s' : LSt} (h : Inv s) (e : SameCtl s s') : Inv s' := by
   | C hd ok h =>
     exact .C (e.dead ▸ hd) (ok.congr e.timers e.nextTimer)
       (h.congr e.everOpened e.isOpen e.obsNil e.closedObs e.balancing e.lockHeld e.queuedCalls e.timers e.stopClosed
-        e.pos)
+        e.pos e.active)
   | B hd ok h =>
     exact .B (e.dead ▸ hd) (ok.congr e.timers e.nextTimer)
-      ⟨h.1.congr e.everOpened e.isOpen e.obsNil e.closedObs e.balancing e.lockHeld e.pos e.closeWithCancel,
+      ⟨h.1.congr e.everOpened e.isOpen e.obsNil e.closedObs e.balancing e.lockHeld e.pos e.closeWithCancel e.active,
        h.2.congr e.timers e.timerPtr⟩
   | A hd ok h =>
     refine .A (e.dead ▸ hd) (ok.congr e.timers e.nextTimer)
       (h.congr e.everOpened e.isOpen e.obsNil e.closedObs e.balancing e.lockHeld e.queuedCalls e.timers
-        e.closeWithCancel e.finishedWithClose ?_ ?_ ?_ ?_)
+        e.closeWithCancel e.finishedWithClose ?_ ?_ ?_ ?_ ?_ ?_)
     · rw [e.finishedWithEnd, e.stopClosed]; exact h.fwe
     · rw [e.pos, e.lo, e.hi]; exact h.keys
     · rw [e.pos, e.nextSeq]; exact h.next
     · rw [e.anyDirty, e.dirty]; exact h.dirtyFlag
+    · rw [e.endedVbs]; exact h.endedNodup
+    · rw [e.active, e.endedVbs, e.lo, e.hi]; exact h.activeLe
 
 /-- a sub-step that touches only configuration / environment / counters and emits neutral observations -/
 theorem Good.env {s s' : LSt} {o : List LObs} (h : Inv s) (e : SameCtl s s') (ho : ∀ x ∈ o, Neutral x) :
@@ -1054,15 +1181,43 @@ theorem Good.env {s s' : LSt} {o : List LObs} (h : Inv s) (e : SameCtl s s') (ho
 theorem listenEnd_closed (s : LSt) (vb : Nat) (c : EndCause) (h : s.closedObs = true) : listenEnd s vb c = (s, []) := by
   simp [listenEnd, h]
 
+/-- `listenEnd` records a finally ended vBucket once -/
+def endedAdd (e : List Nat) (vb : Nat) : List Nat := if e.contains vb then e else e ++ [vb]
+
+theorem endedAdd_of_not_mem {e : List Nat} {vb : Nat} (h : vb ∉ e) : endedAdd e vb = e ++ [vb] := by
+  simp [endedAdd, h]
+
+theorem endedAdd_of_mem {e : List Nat} {vb : Nat} (h : vb ∈ e) : endedAdd e vb = e := by
+  simp [endedAdd, h]
+
+theorem mem_endedAdd {e : List Nat} {vb x : Nat} : x ∈ endedAdd e vb ↔ x ∈ e ∨ x = vb := by
+  by_cases h : vb ∈ e
+  · rw [endedAdd_of_mem h]
+    constructor
+    · exact Or.inl
+    · rintro (hx | rfl); exact hx; exact h
+  · rw [endedAdd_of_not_mem h]; simp
+
+theorem endedAdd_nodup {e : List Nat} (vb : Nat) (h : e.Nodup) : (endedAdd e vb).Nodup := by
+  by_cases hm : vb ∈ e
+  · rw [endedAdd_of_mem hm]; exact h
+  · rw [endedAdd_of_not_mem hm, List.nodup_append]
+    exact ⟨h, by simp, by intro a ha b hb; simp at hb; subst hb; intro e'; subst e'; exact hm ha⟩
+
+theorem endedAdd_length_le (e : List Nat) (vb : Nat) : (endedAdd e vb).length ≤ e.length + 1 := by
+  unfold endedAdd; split <;> simp
+
 /-- a final end on a streaming stream: the count drops; the last one produces the token that the prompt
     `wait()` goroutine turns into `close(stopCh)` (not balancing) -/
 theorem listenEnd_final_A {s : LSt} (vb : Nat) {c : EndCause} (h : PhA s) (hc : c ≠ .transient) :
     listenEnd s vb c =
       if s.active - 1 = 0 then
-        (if s.stopClosed then ({ s with active := s.active - 1, finishedWithEnd := true }, [])
-         else ({ s with active := s.active - 1, finishedWithEnd := true, stopClosed := true }, [.stop]))
-      else ({ s with active := s.active - 1 }, []) := by
-  cases c <;> simp [listenEnd, waitFires, h.closedObs, h.fwc, h.balancing] at hc ⊢ <;>
+        (if s.stopClosed then
+           ({ s with active := s.active - 1, endedVbs := endedAdd s.endedVbs vb, finishedWithEnd := true }, [])
+         else ({ s with active := s.active - 1, endedVbs := endedAdd s.endedVbs vb, finishedWithEnd := true,
+                        stopClosed := true }, [.stop]))
+      else ({ s with active := s.active - 1, endedVbs := endedAdd s.endedVbs vb }, []) := by
+  cases c <;> simp [listenEnd, waitFires, endedAdd, h.closedObs, h.fwc, h.balancing] at hc ⊢ <;>
     (repeat' split) <;> simp_all
 
 theorem listenEnd_transient_A {s : LSt} (vb : Nat) (h : PhA s) :
@@ -1091,20 +1246,26 @@ theorem listenEnd_good {s : LSt} (vb : Nat) (c : EndCause) (h : Inv s) (hd : s.d
       | none => exact Good.of_dead rfl "reopen-gave-up" (by simp)
       | some q => exact Good.of_live hd hd (.A hd ok h) (by rw [h.code]; rfl)
     · rw [listenEnd_final_A vb h hc]
+      have hn : (endedAdd s.endedVbs vb).Nodup := endedAdd_nodup vb h.endedNodup
+      have hle : s.active - 1 + ((endedAdd s.endedVbs vb).length : Int) ≤ ((vbs s.lo s.hi).length : Int) := by
+        have h1 := endedAdd_length_le s.endedVbs vb
+        have h2 := h.activeLe
+        omega
       by_cases h0 : s.active - 1 = 0
       · rw [if_pos h0]
         by_cases hst : s.stopClosed = true
         · rw [if_pos hst]
-          have hA : PhA { s with active := s.active - 1, finishedWithEnd := true } :=
-            h.congr rfl rfl rfl rfl rfl rfl rfl rfl rfl rfl (fun _ => hst) h.keys h.next h.dirtyFlag
+          have hA : PhA { s with active := s.active - 1, endedVbs := endedAdd s.endedVbs vb, finishedWithEnd := true } :=
+            h.congr rfl rfl rfl rfl rfl rfl rfl rfl rfl rfl (fun _ => hst) h.keys h.next h.dirtyFlag hn hle
           exact Good.of_live hd hd (.A hd ⟨ok.lt, ok.uniq⟩ hA) (by rw [h.code]; exact congrArg some hA.code.symm)
         · rw [if_neg hst]
-          have hA : PhA { s with active := s.active - 1, finishedWithEnd := true, stopClosed := true } :=
-            h.congr rfl rfl rfl rfl rfl rfl rfl rfl rfl rfl (fun _ => rfl) h.keys h.next h.dirtyFlag
+          have hA : PhA { s with active := s.active - 1, endedVbs := endedAdd s.endedVbs vb, finishedWithEnd := true,
+                                 stopClosed := true } :=
+            h.congr rfl rfl rfl rfl rfl rfl rfl rfl rfl rfl (fun _ => rfl) h.keys h.next h.dirtyFlag hn hle
           exact Good.of_live hd hd (.A hd ⟨ok.lt, ok.uniq⟩ hA) (by rw [h.code]; exact congrArg some hA.code.symm)
       · rw [if_neg h0]
-        have hA : PhA { s with active := s.active - 1 } :=
-          h.congr rfl rfl rfl rfl rfl rfl rfl rfl rfl rfl h.fwe h.keys h.next h.dirtyFlag
+        have hA : PhA { s with active := s.active - 1, endedVbs := endedAdd s.endedVbs vb } :=
+          h.congr rfl rfl rfl rfl rfl rfl rfl rfl rfl rfl h.fwe h.keys h.next h.dirtyFlag hn hle
         exact Good.of_live hd hd (.A hd ⟨ok.lt, ok.uniq⟩ hA) (by rw [h.code]; exact congrArg some hA.code.symm)
 
 /-! ## events -/
@@ -1160,7 +1321,7 @@ theorem evStep_good {s : LSt} (vb : Nat) (h : Inv s) (hd : s.dead = false) :
     · exact Good.refl (.A hd ok h)
     · obtain ⟨_, _, hhas⟩ := h.inRange_of_next hq
       have hA : PhA (delivered s vb q) := by
-        refine h.congr rfl rfl rfl rfl rfl rfl rfl rfl rfl rfl h.fwe ?_ ?_ (fun hx => by cases hx)
+        refine h.congr rfl rfl rfl rfl rfl rfl rfl rfl rfl rfl h.fwe ?_ ?_ (fun hx => by cases hx) h.endedNodup h.activeLe
         · exact (AMap.keys_set_of_has q hhas).trans h.keys
         · intro vb'
           show (s.nextSeq.set vb (q + 1)).get? vb' = ((s.pos.set vb q).get? vb').map (· + 1)
@@ -1206,23 +1367,27 @@ theorem saveStep_good {s : LSt} (h : Inv s) (hd : s.dead = false) : Good s (save
     exact Good.of_live hd hd' (.pre hd' (hok ok) hP) (by rw [saveStep_out_nil s h.pos, h.code]; exact congrArg some hP.code.symm)
   | C _ ok h =>
     have hP := h.congr (s' := (saveStep s).1) e.everOpened e.isOpen e.obsNil e.closedObs e.balancing e.lockHeld
-      e.queuedCalls e.timers e.stopClosed e.pos
+      e.queuedCalls e.timers e.stopClosed e.pos e.active
     exact Good.of_live hd hd' (.C hd' (hok ok) hP) (by rw [saveStep_out_nil s h.pos, h.code]; exact congrArg some hP.code.symm)
   | B _ ok h =>
     have hP := h.1.congr (s' := (saveStep s).1) e.everOpened e.isOpen e.obsNil e.closedObs e.balancing e.lockHeld
-      e.pos e.closeWithCancel
+      e.pos e.closeWithCancel e.active
     exact Good.of_live hd hd' (.B hd' (hok ok) ⟨hP, h.2.congr e.timers e.timerPtr⟩)
       (by rw [saveStep_out_nil s h.1.pos, h.1.code]; exact congrArg some hP.code.symm)
   | A _ ok h =>
     have hP : PhA (saveStep s).1 := by
       refine h.congr e.everOpened e.isOpen e.obsNil e.closedObs e.balancing e.lockHeld
-        e.queuedCalls e.timers e.closeWithCancel e.finishedWithClose ?_ ?_ ?_ (saveStep_dirtyFlag s h.dirtyFlag)
+        e.queuedCalls e.timers e.closeWithCancel e.finishedWithClose ?_ ?_ ?_ (saveStep_dirtyFlag s h.dirtyFlag) ?_ ?_
       · have e1 := e.finishedWithEnd; have e2 := e.stopClosed
         simp only at e1 e2; rw [e1, e2]; exact h.fwe
       · have e1 := e.pos; have e2 := e.lo; have e3 := e.hi
         simp only at e1 e2 e3; rw [e1, e2, e3]; exact h.keys
       · have e1 := e.pos; have e2 := e.nextSeq
         simp only at e1 e2; rw [e1, e2]; exact h.next
+      · have e1 := e.endedVbs
+        simp only at e1; rw [e1]; exact h.endedNodup
+      · have e1 := e.endedVbs; have e2 := e.active; have e3 := e.lo; have e4 := e.hi
+        simp only at e1 e2 e3 e4; rw [e1, e2, e3, e4]; exact h.activeLe
     obtain ⟨w, hw⟩ := saveStep_out s
     exact Good.of_live hd hd' (.A hd' (hok ok) hP) (by rw [hw, h.code]; exact (obsRun_writtens w).trans (congrArg some hP.code.symm))
 
@@ -1256,7 +1421,8 @@ theorem closeOp_nil (s : LSt) (c : Bool) (h : s.obsNil = true) :
 
 theorem PhC_of_close {s : LSt} (c : Bool) (h : PhA s) : PhC (closeCore s c).1 :=
   ⟨by simp [h.everOpened], by simp, by simp, by simp, by simp [h.balancing], by simp [h.lockHeld],
-   by simp [h.queued], h.noReb.congr (by simp), closeCore_stop_streaming s c h.balancing h.fwc h.fwe, by simp⟩
+   by simp [h.queued], h.noReb.congr (by simp), closeCore_stop_streaming s c h.balancing h.fwc h.fwe, by simp,
+   by have := h.active_le_live; rw [closeCore_active]; omega⟩
 
 theorem closeOp_good {s : LSt} (c : Bool) (h : Inv s) (hd : s.dead = false) :
     Good s (closeOp s c).2 (closeOp s c).1 := by
@@ -1307,7 +1473,7 @@ theorem stepCore_good {s : LSt} (op : LOp) (h : Inv s) (hd : s.dead = false) (ho
       have hA : PhA (doOpen s).1 :=
         PhA_of_open s s.rebalances s.queuedCalls h.queued h.cwc h.noReb |>.congr
           rfl rfl rfl rfl h.balancing h.lockHeld rfl rfl rfl rfl (fun hx => by simp [doOpen] at hx)
-          (doOpen_data s).1 (doOpen_data s).2 (fun _ => rfl)
+          (doOpen_data s).1 (doOpen_data s).2 (fun _ => rfl) List.nodup_nil (by simp [doOpen])
       exact Good.of_live hd hd (.A hd ⟨ok.lt, ok.uniq⟩ hA)
         (by rw [h.code]; exact (obsRun_doOpen s 0 1 2 rfl (Or.inl rfl) rfl).trans (congrArg some hA.code.symm))
   | notify => exact callRebalance_good s.now h hd
@@ -1453,10 +1619,17 @@ def RebAlpha : LObs → Prop
   | .cb _ | .openreq .. | .closereq _ | .failstop _ | .queued | .debounced | .reassigned => True
   | _ => False
 
-/-- observations of a `Rebalance()` that gets the lock: callbacks, close requests, a fail-stop -/
+/-- observations of a `Rebalance()` that gets the lock: its own brackets and those of `Close`, close requests,
+    a fail-stop – never a bracket of `Open` or of the reopen -/
 def CloseAlpha : LObs → Prop
-  | .cb _ | .closereq _ | .failstop _ => True
+  | .cb .BRS | .cb .ARS | .cb .BSP | .cb .ASP | .closereq _ | .failstop _ => True
   | _ => False
+
+theorem CloseAlpha.noASS {x : LObs} (h : CloseAlpha x) : x ≠ .cb .ASS := by
+  intro e; subst e; exact h
+
+theorem Neutral.noASS {x : LObs} (h : Neutral x) : x ≠ .cb .ASS := by
+  intro e; subst e; exact h
 
 theorem CloseAlpha.reb {x : LObs} (h : CloseAlpha x) : RebAlpha x := by
   cases x <;> simp_all [CloseAlpha, RebAlpha]
@@ -1896,7 +2069,7 @@ theorem callRebalance_lands {s : LSt} (a : Nat) (h : Inv s) (hd : s.dead = false
     exact Or.inl rfl
   | A _ ok h =>
     rw [callRebalance_streaming a h.balancing h.lockHeld]
-    exact Or.inr (rebalanceLocked_from_streaming a ok hd h.everOpened h.obsNil h.balancing h.noReb).1.isOpen
+    exact Or.inr (rebalanceLocked_from_streaming a ok hd h.everOpened h.obsNil h.balancing h.noReb h.active_le_live).1.isOpen
   | B _ ok h =>
     obtain ⟨t, _, _, _, _, hdb, hB, hok⟩ := debounce_window a ok h
     simp only [callRebalance, hdb]
@@ -1917,7 +2090,7 @@ theorem notifyOverlapped_lands {s : LSt} (k : Nat) (h : Inv s) (hd : s.dead = fa
       right
       have hb : (notifyOverlapped s k).1.balancing = true := by
         rw [notifyOverlapped_streaming s k h.balancing h.lockHeld h.obsNil]
-        have hm := PhM_after_close h.everOpened h.noReb
+        have hm := PhM_after_close h.everOpened h.noReb h.active_le_live
         have hok := TimersOk_after_close false (s := { s with lockHeld := true, balancing := true }) ⟨ok.lt, ok.uniq⟩
         have hdead : (closeCore { s with lockHeld := true, balancing := true } false).1.dead = false := by simp [hd]
         exact (duringClose_PhM s.now k hok hdead hm).1.1.balancing
@@ -1950,14 +2123,15 @@ theorem fireOne_track {s : LSt} {t : Timer} (h : Inv s) (hd : s.dead = false) (h
   | C _ ok h => exact hReb (.C hd (ok' ok) { h with noReb := h.noReb.fire t }) (h.noReb t ht hp)
   | B _ ok h =>
     cases hk : t.kind with
-    | Reb => exact hReb (.B hd (ok' ok) ⟨h.1.congr rfl rfl rfl rfl rfl rfl rfl rfl, h.2.fire_Reb ok ht hk⟩) hk
+    | Reb => exact hReb (.B hd (ok' ok) ⟨h.1.congr rfl rfl rfl rfl rfl rfl rfl rfl rfl, h.2.fire_Reb ok ht hk⟩) hk
     | reb =>
       rw [fireOne_reb s hk]
       by_cases hq : (setTimer s { t with pending := false }).queuedCalls > 0
       · rw [rebalanceFires_queued _ _ hq]
         exact Track.of_closed (Or.inr (rebalanceLocked_from_streaming
           (s := reopened (setTimer s { t with pending := false }) ((setTimer s { t with pending := false }).queuedCalls - 1))
-          t.deadline ⟨(ok' ok).lt, (ok' ok).uniq⟩ hd rfl rfl rfl (h.2.fire_reb ht hp hk)).1.isOpen)
+          t.deadline ⟨(ok' ok).lt, (ok' ok).uniq⟩ hd rfl rfl rfl (h.2.fire_reb ht hp hk)
+          (Int.le_of_eq (reopened_active_live _ _))).1.isOpen)
       · rw [rebalanceFires_plain _ _ (by omega)]
         exact reopened_track _ _ _
 
@@ -2193,7 +2367,7 @@ theorem callRebalance_running {s : LSt} (a : Nat) (h : Inv s) (hr : Running s) :
   have ok := h.timersOk hr.1
   rcases hr.cases h with hA | hB
   · rw [callRebalance_streaming a hA.balancing hA.lockHeld]
-    obtain ⟨hB', _, hd', _⟩ := rebalanceLocked_from_streaming a ok hr.1 hA.everOpened hA.obsNil hA.balancing hA.noReb
+    obtain ⟨hB', _, hd', _⟩ := rebalanceLocked_from_streaming a ok hr.1 hA.everOpened hA.obsNil hA.balancing hA.noReb hA.active_le_live
     exact hB'.running hd'
   · obtain ⟨t, _, _, _, _, hdb, hB', _⟩ := debounce_window a ok hB
     simp only [callRebalance, hdb]
@@ -2204,7 +2378,7 @@ theorem notifyOverlapped_running {s : LSt} (k : Nat) (h : Inv s) (hr : Running s
   have ok := h.timersOk hr.1
   rcases hr.cases h with hA | hB
   · rw [notifyOverlapped_streaming s k hA.balancing hA.lockHeld hA.obsNil]
-    have hm := PhM_after_close hA.everOpened hA.noReb
+    have hm := PhM_after_close hA.everOpened hA.noReb hA.active_le_live
     have hok := TimersOk_after_close false (s := { s with lockHeld := true, balancing := true }) ⟨ok.lt, ok.uniq⟩
     have hdead : (closeCore { s with lockHeld := true, balancing := true } false).1.dead = false := by simp [hr.1]
     obtain ⟨hm2, _, hd2, _⟩ := duringClose_PhM s.now k hok hdead hm
@@ -2226,7 +2400,7 @@ theorem fireOne_running {s : LSt} {t : Timer} (h : Inv s) (hr : Running s) (ht :
     | Reb =>
       rw [fireOne_Reb s hk]
       exact callRebalance_running t.deadline
-        (.B hr.1 ok' ⟨hB.1.congr rfl rfl rfl rfl rfl rfl rfl rfl, hB.2.fire_Reb ok ht hk⟩) hr1
+        (.B hr.1 ok' ⟨hB.1.congr rfl rfl rfl rfl rfl rfl rfl rfl rfl, hB.2.fire_Reb ok ht hk⟩) hr1
     | reb =>
       rw [fireOne_reb s hk]
       by_cases hq : (setTimer s { t with pending := false }).queuedCalls > 0
@@ -2234,6 +2408,7 @@ theorem fireOne_running {s : LSt} {t : Timer} (h : Inv s) (hr : Running s) (ht :
         obtain ⟨hB', _, hd', _⟩ := rebalanceLocked_from_streaming
           (s := reopened (setTimer s { t with pending := false }) ((setTimer s { t with pending := false }).queuedCalls - 1))
           t.deadline ⟨ok'.lt, ok'.uniq⟩ hr.1 rfl rfl rfl (hB.2.fire_reb ht hp hk)
+          (Int.le_of_eq (reopened_active_live _ _))
         exact hB'.running hd'
       · rw [rebalanceFires_plain _ _ (by omega)]
         exact ⟨hr.1, Or.inl rfl⟩
@@ -2344,8 +2519,677 @@ theorem open_running {s : LSt} (hd : s.dead = false) (ok : TimersOk s) (hpre : P
   have hA : PhA (doOpen s).1 :=
     PhA_of_open s s.rebalances s.queuedCalls hpre.queued hpre.cwc hpre.noReb |>.congr
       rfl rfl rfl rfl hpre.balancing hpre.lockHeld rfl rfl rfl rfl (fun hx => by simp [doOpen] at hx)
-      (doOpen_data s).1 (doOpen_data s).2 (fun _ => rfl)
+      (doOpen_data s).1 (doOpen_data s).2 (fun _ => rfl) List.nodup_nil (by simp [doOpen])
   have g1 := stepCore_good .open (.pre hd ok hpre) hd (fun _ => hpre.everOpened)
   exact fireDue_running _ 64 g1.inv (hA.running hd)
+
+/-! ## sessions: the range and the record of finally ended vBuckets through a step (every state) -/
+
+/-- the data of a session and what decides its phase -/
+structure SameData (s s' : LSt) : Prop where
+  dead : s'.dead = s.dead
+  isOpen : s'.isOpen = s.isOpen
+  everOpened : s'.everOpened = s.everOpened
+  active : s'.active = s.active
+  lo : s'.lo = s.lo
+  hi : s'.hi = s.hi
+  endedVbs : s'.endedVbs = s.endedVbs
+
+theorem SameData.refl (s : LSt) : SameData s s := ⟨rfl, rfl, rfl, rfl, rfl, rfl, rfl⟩
+
+theorem SameData.trans {s s1 s2 : LSt} (h1 : SameData s s1) (h2 : SameData s1 s2) : SameData s s2 :=
+  ⟨h2.dead.trans h1.dead, h2.isOpen.trans h1.isOpen, h2.everOpened.trans h1.everOpened, h2.active.trans h1.active,
+   h2.lo.trans h1.lo, h2.hi.trans h1.hi, h2.endedVbs.trans h1.endedVbs⟩
+
+theorem debounce_data {s : LSt} {a : Nat} {r : LSt × List LObs} (h : debounce s a = some r) : SameData s r.1 := by
+  simp only [debounce] at h
+  (repeat' split at h) <;> first | (cases h; exact ⟨rfl, rfl, rfl, rfl, rfl, rfl, rfl⟩) | cases h
+
+theorem absorb_data (s : LSt) (a : Nat) : SameData s (absorb s a).1 := by
+  unfold absorb
+  cases hdb : debounce s a with
+  | some r => exact debounce_data hdb
+  | none => exact ⟨rfl, rfl, rfl, rfl, rfl, rfl, rfl⟩
+
+theorem duringClose_data (s : LSt) (a k : Nat) : SameData s (duringClose s a k).1 := by
+  induction k generalizing s with
+  | zero => exact SameData.refl s
+  | succ k ih => rw [duringClose_succ]; exact (absorb_data s a).trans (ih _)
+
+/-- `Close` keeps the range and the record -/
+theorem closeCore_sess (s : LSt) (c : Bool) :
+    (closeCore s c).1.lo = s.lo ∧ (closeCore s c).1.hi = s.hi ∧ (closeCore s c).1.endedVbs = s.endedVbs :=
+  ⟨by simp, by simp, by simp⟩
+
+theorem rebalanceLocked_sess (s : LSt) (a : Nat) :
+    (rebalanceLocked s a).1.lo = s.lo ∧ (rebalanceLocked s a).1.hi = s.hi ∧
+      (rebalanceLocked s a).1.endedVbs = s.endedVbs := by
+  by_cases hb : s.balancing = true
+  · simp only [rebalanceLocked, hb]
+    simp only [Bool.not_true, Bool.false_eq_true, if_false]
+    split <;> exact ⟨rfl, rfl, rfl⟩
+  · have hb' : s.balancing = false := by simpa using hb
+    by_cases hn : s.obsNil = true
+    · rw [rebalanceLocked_closed s a hn hb']; exact ⟨rfl, rfl, rfl⟩
+    · by_cases hd : s.dead = true
+      · have e : rebalanceLocked s a =
+            ((closeCore { s with lockHeld := true, balancing := true } false).1,
+             [LObs.cb .BRS] ++ (closeCore { s with lockHeld := true, balancing := true } false).2) := by
+          simp [rebalanceLocked, hb', doClose_eq, hn, hd]
+        rw [e]; exact closeCore_sess _ _
+      · rw [rebalanceLocked_streaming s a (by simpa using hn) hb' (by simpa using hd)]
+        exact closeCore_sess _ _
+
+/-- what a `Rebalance()` call can emit: never a bracket of `Open` -/
+theorem callRebalance_noASS (s : LSt) (a : Nat) : LObs.cb .ASS ∉ (callRebalance s a).2 := by
+  intro hx
+  unfold callRebalance at hx
+  cases hdb : debounce s a with
+  | some r => rw [hdb] at hx; rcases debounce_alpha hdb with h | h <;> simp [h] at hx
+  | none =>
+    rw [hdb] at hx
+    simp only at hx
+    split at hx
+    · simp at hx
+    · exact (rebalanceLocked_alpha' s a _ hx).noASS rfl
+
+theorem notifyOverlapped_noASS (s : LSt) (k : Nat) : LObs.cb .ASS ∉ (notifyOverlapped s k).2 := by
+  intro hx
+  cases hdb : debounce s s.now with
+  | some r =>
+    have e : notifyOverlapped s k = r := by simp [notifyOverlapped, hdb]
+    rw [e] at hx
+    rcases debounce_alpha hdb with h | h <;> simp [h] at hx
+  | none =>
+    by_cases hl : s.lockHeld = true
+    · have e : notifyOverlapped s k = ({ s with queuedCalls := s.queuedCalls + 1 }, [.queued]) := by
+        simp [notifyOverlapped, hdb, hl]
+      rw [e] at hx; simp at hx
+    · by_cases hb : s.balancing = true
+      · have e : notifyOverlapped s k = rebalanceLocked s s.now := by simp [notifyOverlapped, hdb, hl, hb]
+        rw [e] at hx; exact (rebalanceLocked_alpha' s s.now _ hx).noASS rfl
+      · have hl' : s.lockHeld = false := by simpa using hl
+        have hb' : s.balancing = false := by simpa using hb
+        by_cases hn : s.obsNil = true
+        · rw [notifyOverlapped_closed s k hb' hl' hn] at hx; simp at hx
+        · rw [notifyOverlapped_streaming s k hb' hl' (by simpa using hn)] at hx
+          have hc := closeCore_alpha { s with lockHeld := true, balancing := true } false rfl
+          have hk := duringClose_alpha (closeCore { s with lockHeld := true, balancing := true } false).1 s.now k
+          simp only [List.mem_append, List.mem_cons, List.not_mem_nil, or_false] at hx
+          rcases hx with ((hx | hx) | hx) | hx
+          · cases hx
+          · exact (hc _ hx).noASS rfl
+          · exact (hk _ hx).noASS rfl
+          · cases hx
+
+theorem callRebalance_sess (s : LSt) (a : Nat) :
+    (callRebalance s a).1.lo = s.lo ∧ (callRebalance s a).1.hi = s.hi ∧ (callRebalance s a).1.endedVbs = s.endedVbs := by
+  unfold callRebalance
+  cases hdb : debounce s a with
+  | some r => have := debounce_data hdb; exact ⟨this.lo, this.hi, this.endedVbs⟩
+  | none =>
+    simp only
+    split
+    · exact ⟨rfl, rfl, rfl⟩
+    · exact rebalanceLocked_sess s a
+
+theorem notifyOverlapped_sess (s : LSt) (k : Nat) :
+    (notifyOverlapped s k).1.lo = s.lo ∧ (notifyOverlapped s k).1.hi = s.hi ∧
+      (notifyOverlapped s k).1.endedVbs = s.endedVbs := by
+  cases hdb : debounce s s.now with
+  | some r =>
+    have e : notifyOverlapped s k = r := by simp [notifyOverlapped, hdb]
+    rw [e]
+    have := debounce_data hdb; exact ⟨this.lo, this.hi, this.endedVbs⟩
+  | none =>
+    by_cases hl : s.lockHeld = true
+    · have e : notifyOverlapped s k = ({ s with queuedCalls := s.queuedCalls + 1 }, [.queued]) := by
+        simp [notifyOverlapped, hdb, hl]
+      rw [e]; exact ⟨rfl, rfl, rfl⟩
+    · by_cases hb : s.balancing = true
+      · have e : notifyOverlapped s k = rebalanceLocked s s.now := by simp [notifyOverlapped, hdb, hl, hb]
+        rw [e]; exact rebalanceLocked_sess s s.now
+      · have hl' : s.lockHeld = false := by simpa using hl
+        have hb' : s.balancing = false := by simpa using hb
+        by_cases hn : s.obsNil = true
+        · rw [notifyOverlapped_closed s k hb' hl' hn]; exact ⟨rfl, rfl, rfl⟩
+        · rw [notifyOverlapped_streaming s k hb' hl' (by simpa using hn)]
+          have h1 := closeCore_sess { s with lockHeld := true, balancing := true } false
+          have h2 := duringClose_data (closeCore { s with lockHeld := true, balancing := true } false).1 s.now k
+          exact ⟨h2.lo.trans h1.1, h2.hi.trans h1.2.1, h2.endedVbs.trans h1.2.2⟩
+
+/-- a sub-step either contains no `Open` – range and record of finally ended vBuckets are untouched – or it
+    contains one (`ASS`) and ends with an empty record: `Open` is the only place where a session starts -/
+def Frame (s : LSt) (o : List LObs) (s' : LSt) : Prop :=
+  (LObs.cb .ASS ∉ o ∧ s'.lo = s.lo ∧ s'.hi = s.hi ∧ s'.endedVbs = s.endedVbs) ∨
+  (LObs.cb .ASS ∈ o ∧ s'.endedVbs = [])
+
+theorem Frame.refl (s : LSt) : Frame s [] s := Or.inl ⟨by simp, rfl, rfl, rfl⟩
+
+theorem Frame.same {s s' : LSt} {o : List LObs} (hass : LObs.cb .ASS ∉ o)
+    (h : s'.lo = s.lo ∧ s'.hi = s.hi ∧ s'.endedVbs = s.endedVbs) : Frame s o s' := Or.inl ⟨hass, h⟩
+
+theorem Frame.trans {s s1 s2 : LSt} {o1 o2 : List LObs} (h1 : Frame s o1 s1) (h2 : Frame s1 o2 s2) :
+    Frame s (o1 ++ o2) s2 := by
+  rcases h2 with ⟨n2, l2, i2, e2⟩ | ⟨m2, e2⟩
+  · rcases h1 with ⟨n1, l1, i1, e1⟩ | ⟨m1, e1⟩
+    · refine Or.inl ⟨?_, l2.trans l1, i2.trans i1, e2.trans e1⟩
+      intro hx
+      rcases List.mem_append.1 hx with hx | hx
+      · exact n1 hx
+      · exact n2 hx
+    · exact Or.inr ⟨List.mem_append_left _ m1, e2.trans e1⟩
+  · exact Or.inr ⟨List.mem_append_right _ m2, e2⟩
+
+theorem rebalanceFires_frame (s : LSt) (a : Nat) :
+    LObs.cb .ASS ∈ (rebalanceFires s a).2 ∧ (rebalanceFires s a).1.endedVbs = [] := by
+  by_cases hq : s.queuedCalls > 0
+  · rw [rebalanceFires_queued s a hq]
+    refine ⟨by simp [doOpen], ?_⟩
+    exact (rebalanceLocked_sess _ a).2.2
+  · rw [rebalanceFires_plain s a (by omega)]
+    exact ⟨by simp [doOpen], rfl⟩
+
+theorem fireOne_frame (s : LSt) (t : Timer) : Frame s (fireOne s t).2 (fireOne s t).1 := by
+  cases hk : t.kind with
+  | reb => rw [fireOne_reb s hk]; exact Or.inr (rebalanceFires_frame _ _)
+  | Reb =>
+    rw [fireOne_Reb s hk]
+    refine Frame.same ?_ (callRebalance_sess (setTimer s { t with pending := false }) t.deadline)
+    intro hx
+    exact callRebalance_noASS _ _ (List.mem_filter.1 hx).1
+
+theorem fireDue_frame (upto fuel : Nat) (s : LSt) : Frame s (fireDue upto fuel s).2 (fireDue upto fuel s).1 := by
+  induction fuel generalizing s with
+  | zero => exact Frame.refl s
+  | succ fuel ih =>
+    rw [fireDue_succ]
+    split
+    · exact Frame.refl s
+    · split
+      · exact Frame.refl s
+      · exact (fireOne_frame s _).trans (ih _)
+
+/-- the record after a step that stays in the session -/
+def endedOf (s : LSt) (op : LOp) : List Nat :=
+  match op with
+  | .endEv vb _ => if countsEnd s op then endedAdd s.endedVbs vb else s.endedVbs
+  | _ => s.endedVbs
+
+theorem listenEnd_noASS (s : LSt) (vb : Nat) (c : EndCause) : LObs.cb .ASS ∉ (listenEnd s vb c).2 := by
+  intro hx
+  rcases listenEnd_alpha s vb c _ hx with ⟨h, _⟩ | ⟨q, h⟩ | ⟨w, h⟩ <;> cases h
+
+theorem evStep_sess (s : LSt) (vb : Nat) :
+    (evStep s vb).1.lo = s.lo ∧ (evStep s vb).1.hi = s.hi ∧ (evStep s vb).1.endedVbs = s.endedVbs := by
+  simp only [evStep]
+  (repeat' split) <;> exact ⟨rfl, rfl, rfl⟩
+
+theorem evStep_noASS (s : LSt) (vb : Nat) : LObs.cb .ASS ∉ (evStep s vb).2 := by
+  intro hx
+  obtain ⟨q, h, _⟩ := evStep_alpha s vb _ hx
+  cases h
+
+theorem closeOp_noASS (s : LSt) (c : Bool) : LObs.cb .ASS ∉ (closeOp s c).2 := by
+  intro hx
+  rcases closeOp_alpha s c _ hx with h | h
+  · exact h.noASS rfl
+  · cases h
+
+theorem closeOp_sess (s : LSt) (c : Bool) :
+    (closeOp s c).1.lo = s.lo ∧ (closeOp s c).1.hi = s.hi ∧ (closeOp s c).1.endedVbs = s.endedVbs := by
+  by_cases hn : s.obsNil = true
+  · rw [closeOp_nil s c hn]; exact ⟨rfl, rfl, rfl⟩
+  · rw [closeOp_open s c (by simpa using hn)]; exact closeCore_sess s c
+
+theorem writtens_noASS (w : List (Nat × Nat)) : LObs.cb .ASS ∉ w.map fun (vb, q) => LObs.written vb q := by
+  intro hx
+  simp only [List.mem_map] at hx
+  obtain ⟨p, _, h⟩ := hx
+  cases h
+
+/-- the record of a final end on a streaming stream -/
+theorem listenEnd_sess {s : LSt} (vb : Nat) (c : EndCause) (h : Inv s) (hd : s.dead = false)
+    (hst : s.stopClosed = false) :
+    (listenEnd s vb c).1.lo = s.lo ∧ (listenEnd s vb c).1.hi = s.hi ∧
+      (listenEnd s vb c).1.endedVbs = endedOf s (.endEv vb c) := by
+  have hclosed : s.closedObs = true → ((listenEnd s vb c).1.lo = s.lo ∧ (listenEnd s vb c).1.hi = s.hi ∧
+      (listenEnd s vb c).1.endedVbs = endedOf s (.endEv vb c)) := fun hc => by
+    rw [listenEnd_closed s vb c hc]
+    exact ⟨rfl, rfl, by simp [endedOf, countsEnd, hc]⟩
+  cases h with
+  | dead hx => rw [hd] at hx; cases hx
+  | pre _ _ h => exact hclosed h.closedObs
+  | B _ _ h => exact hclosed h.1.closedObs
+  | C _ _ h => exact hclosed h.closedObs
+  | A _ _ h =>
+    by_cases hc : c = .transient
+    · subst hc
+      rw [listenEnd_transient_A vb h]
+      have e : endedOf s (.endEv vb .transient) = s.endedVbs := by simp [endedOf, countsEnd]
+      rw [e]
+      split <;> exact ⟨rfl, rfl, rfl⟩
+    · have e : endedOf s (.endEv vb c) = endedAdd s.endedVbs vb := by
+        simp [endedOf, countsEnd, hc, h.closedObs, hst, hd]
+      rw [e, listenEnd_final_A vb h hc]
+      split
+      · split <;> exact ⟨rfl, rfl, rfl⟩
+      · exact ⟨rfl, rfl, rfl⟩
+
+/-- `Frame` with the record a step that stays in the session leaves -/
+def FrameOp (s : LSt) (op : LOp) (o : List LObs) (s' : LSt) : Prop :=
+  (LObs.cb .ASS ∉ o ∧ s'.lo = s.lo ∧ s'.hi = s.hi ∧ s'.endedVbs = endedOf s op) ∨
+  (LObs.cb .ASS ∈ o ∧ s'.endedVbs = [])
+
+theorem FrameOp.then {s s1 s2 : LSt} {op : LOp} {o1 o2 : List LObs} (h1 : FrameOp s op o1 s1) (h2 : Frame s1 o2 s2) :
+    FrameOp s op (o1 ++ o2) s2 := by
+  rcases h2 with ⟨n2, l2, i2, e2⟩ | ⟨m2, e2⟩
+  · rcases h1 with ⟨n1, l1, i1, e1⟩ | ⟨m1, e1⟩
+    · refine Or.inl ⟨?_, l2.trans l1, i2.trans i1, e2.trans e1⟩
+      intro hx
+      rcases List.mem_append.1 hx with hx | hx
+      · exact n1 hx
+      · exact n2 hx
+    · exact Or.inr ⟨List.mem_append_left _ m1, e2.trans e1⟩
+  · exact Or.inr ⟨List.mem_append_right _ m2, e2⟩
+
+theorem stepCore_frame {s : LSt} (op : LOp) (h : Inv s) (hd : s.dead = false) (hig : ignored s op = false) :
+    FrameOp s op (stepCore s op).2 (stepCore s op).1 := by
+  cases op with
+  | member lo hi => exact Or.inl ⟨by simp [stepCore], rfl, rfl, rfl⟩
+  | setStore vb q => exact Or.inl ⟨by simp [stepCore], rfl, rfl, rfl⟩
+  | query => exact Or.inl ⟨by simp [stepCore], rfl, rfl, rfl⟩
+  | «open» => exact Or.inr ⟨by simp [stepCore, doOpen], rfl⟩
+  | notify => exact Or.inl ⟨callRebalance_noASS s s.now, callRebalance_sess s s.now⟩
+  | notifyApi =>
+    simp only [stepCore]
+    split
+    · exact Or.inl ⟨callRebalance_noASS s s.now, callRebalance_sess s s.now⟩
+    · exact Or.inl ⟨by simp, rfl, rfl, rfl⟩
+  | notifyDuringClose k => exact Or.inl ⟨notifyOverlapped_noASS s k, notifyOverlapped_sess s k⟩
+  | tick d =>
+    rcases fireDue_frame (s.now + d) 64 s with ⟨n, l, i, e⟩ | ⟨m, e⟩
+    · exact Or.inl ⟨n, l, i, e⟩
+    · exact Or.inr ⟨m, e⟩
+  | endEv vb c =>
+    exact Or.inl ⟨listenEnd_noASS s vb c, listenEnd_sess vb c h hd (ignored_false_stop hig (by simp))⟩
+  | ev vb => exact Or.inl ⟨evStep_noASS s vb, evStep_sess s vb⟩
+  | save =>
+    have e := saveStep_fields s
+    obtain ⟨w, hw⟩ := saveStep_out s
+    refine Or.inl ⟨?_, e.lo, e.hi, e.endedVbs⟩
+    show LObs.cb .ASS ∉ (saveStep s).2
+    rw [hw]; exact writtens_noASS w
+  | shutdown c =>
+    rw [stepCore_shutdown]
+    have e := finalSave_fields s
+    obtain ⟨w, hw⟩ := finalSave_out s
+    have hc := closeOp_sess (finalSave s).1 c
+    refine Or.inl ⟨?_, hc.1.trans e.lo, hc.2.1.trans e.hi, hc.2.2.trans e.endedVbs⟩
+    intro hx
+    rcases List.mem_append.1 hx with hx | hx
+    · rw [hw] at hx; exact writtens_noASS w hx
+    · exact closeOp_noASS _ c hx
+
+/-- **sessions through one op**: a step either contains no `Open` – the range stays and the record of finally ended
+    vBuckets grows by the vBucket of a counted final end, if it is new – or contains one and ends with an empty
+    record -/
+theorem step_frame {s : LSt} (op : LOp) (h : Inv s) : FrameOp s op (step s op).2 (step s op).1 := by
+  rw [step_eq]
+  by_cases hd : s.dead = true
+  · rw [if_pos hd]
+    refine Or.inl ⟨by simp, rfl, rfl, ?_⟩
+    cases op <;> simp [endedOf, countsEnd, hd]
+  · rw [if_neg hd]
+    have hd' : s.dead = false := by simpa using hd
+    by_cases hi : ignored s op = true
+    · rw [if_pos hi]
+      have hst : s.stopClosed = true := by simp [ignored] at hi; exact hi.1
+      refine Or.inl ⟨by simp, rfl, rfl, ?_⟩
+      cases op <;> simp [endedOf, countsEnd, hst]
+    · rw [if_neg hi]
+      exact (stepCore_frame op h hd' (by simpa using hi)).then (fireDue_frame _ 64 _)
+
+/-! ## the exact session count under the server hypothesis -/
+
+/-- **the data invariant of a session** (it needs the server hypothesis `EndOk`: `listenEnd` decrements the count
+    for EVERY non-transient end it sees, also for a vBucket that has already ended or is not assigned). While the
+    stream is open the active count is the number of assigned vBuckets minus the number of recorded final ends and
+    every recorded vBucket is assigned (duplicate-free: `PhA.endedNodup`); after a `Close` – in the rebalance
+    window and after a shutdown – the count is exactly 0. -/
+def Exact (s : LSt) : Prop :=
+  s.dead = false →
+    (s.isOpen = true →
+      s.active = ((vbs s.lo s.hi).length : Int) - (s.endedVbs.length : Int) ∧
+      ∀ vb ∈ s.endedVbs, vb ∈ vbs s.lo s.hi) ∧
+    (s.isOpen = false → s.everOpened = true → s.active = 0)
+
+theorem Exact.of_dead {s : LSt} (h : s.dead = true) : Exact s := fun hd => by rw [h] at hd; cases hd
+
+theorem Exact.congr {s s' : LSt} (h : Exact s) (e : SameData s s') : Exact s' := by
+  intro hd
+  have := h (e.dead ▸ hd)
+  rw [e.isOpen, e.everOpened, e.active, e.lo, e.hi, e.endedVbs]
+  exact this
+
+/-- right after an `Open` -/
+theorem Exact.fresh {s : LSt} (ho : s.isOpen = true) (ha : s.active = ((vbs s.lo s.hi).length : Int))
+    (he : s.endedVbs = []) : Exact s := by
+  intro _
+  refine ⟨fun _ => ⟨by rw [ha, he]; simp, by rw [he]; simp⟩, fun hc => ?_⟩
+  rw [ho] at hc; cases hc
+
+theorem Exact.zero {s : LSt} (ho : s.isOpen = false) (ha : s.active = 0) : Exact s := by
+  intro _
+  refine ⟨fun hc => ?_, fun _ _ => ha⟩
+  rw [ho] at hc; cases hc
+
+/-- before the first `Open` nothing is claimed -/
+theorem PhPre.exact {s : LSt} (h : PhPre s) : Exact s := by
+  intro _
+  refine ⟨fun hc => ?_, fun _ he => ?_⟩
+  · rw [h.isOpen] at hc; cases hc
+  · rw [h.everOpened] at he; cases he
+
+/-- under the exact count, the server still has exactly `active` streams of the session -/
+theorem PhA.exact_live {s : LSt} (h : PhA s) (hx : Exact s) (hd : s.dead = false) :
+    s.active = ((live s).length : Int) := by
+  obtain ⟨ha, hsub⟩ := (hx hd).1 h.isOpen
+  have := filter_notin_length s.endedVbs (vbs s.lo s.hi) h.endedNodup hsub (vbs_nodup _ _)
+  rw [live_length, h.keys, ha]
+  omega
+
+/-- … which are the assigned vBuckets that have not finally ended -/
+theorem PhA.exact_unfinished {s : LSt} (h : PhA s) (hx : Exact s) (hd : s.dead = false) :
+    s.active = (((vbs s.lo s.hi).filter fun vb => !s.endedVbs.contains vb).length : Int) := by
+  rw [h.exact_live hx hd, live_length, h.keys]
+
+/-- contract of a sub-step for the exact count: it is kept, and every (re)open re-establishes it -/
+def Keeps (s : LSt) (o : List LObs) (s' : LSt) : Prop := (Exact s ∨ LObs.cb .ASS ∈ o) → Exact s'
+
+theorem Keeps.refl (s : LSt) : Keeps s [] s := fun h => h.resolve_right (by simp)
+
+theorem Keeps.of_exact {s s' : LSt} {o : List LObs} (h : Exact s') : Keeps s o s' := fun _ => h
+
+theorem Keeps.trans {s s1 s2 : LSt} {o1 o2 : List LObs} (h1 : Keeps s o1 s1) (h2 : Keeps s1 o2 s2) :
+    Keeps s (o1 ++ o2) s2 := by
+  rintro (hx | hx)
+  · exact h2 (Or.inl (h1 (Or.inl hx)))
+  · rcases List.mem_append.1 hx with hx | hx
+    · exact h2 (Or.inl (h1 (Or.inr hx)))
+    · exact h2 (Or.inr hx)
+
+theorem Keeps.same {s s' : LSt} {o : List LObs} (hass : LObs.cb .ASS ∉ o) (e : SameData s s') : Keeps s o s' :=
+  fun h => (h.resolve_right hass).congr e
+
+theorem Keeps.of_noASS {s s' : LSt} {o : List LObs} (hass : LObs.cb .ASS ∉ o) (h : Exact s → Exact s') : Keeps s o s' :=
+  fun hx => h (hx.resolve_right hass)
+
+/-- **`Close` brings the count to exactly 0** whatever subset of the assigned vBuckets had finally ended before:
+    only the streams the server still has answer with an `End` -/
+theorem closeCore_active_zero {s : LSt} (c : Bool) (h : PhA s) (hx : Exact s) (hd : s.dead = false) :
+    (closeCore s c).1.active = 0 := by
+  rw [closeCore_active, h.exact_live hx hd]; omega
+
+/-- the same for the `Close` inside `Rebalance()` -/
+theorem closeCore_active_zero_reb {s : LSt} (c : Bool) (h : PhA s) (hx : Exact s) (hd : s.dead = false) :
+    (closeCore { s with lockHeld := true, balancing := true } c).1.active = 0 := by
+  rw [closeCore_active]
+  show s.active - ((live s).length : Int) = 0
+  rw [h.exact_live hx hd]; omega
+
+theorem rebalanceLocked_exact {s : LSt} (a : Nat) (h : PhA s) (hx : Exact s) (hd : s.dead = false) :
+    Exact (rebalanceLocked s a).1 := by
+  rw [rebalanceLocked_streaming s a h.obsNil h.balancing hd]
+  exact Exact.zero (by simp [armTimer]) (by simpa [armTimer] using closeCore_active_zero_reb false h hx hd)
+
+theorem callRebalance_keeps {s : LSt} (a : Nat) (h : Inv s) (hd : s.dead = false) :
+    Keeps s (callRebalance s a).2 (callRebalance s a).1 := by
+  refine Keeps.of_noASS (callRebalance_noASS s a) fun hx => ?_
+  cases h with
+  | dead hx => rw [hd] at hx; cases hx
+  | pre _ ok h =>
+    rw [callRebalance_streaming a h.balancing h.lockHeld, rebalanceLocked_closed s a h.obsNil h.balancing]
+    exact Exact.of_dead rfl
+  | C _ ok h =>
+    rw [callRebalance_streaming a h.balancing h.lockHeld, rebalanceLocked_closed s a h.obsNil h.balancing]
+    exact Exact.of_dead rfl
+  | A _ ok h =>
+    rw [callRebalance_streaming a h.balancing h.lockHeld]
+    exact rebalanceLocked_exact a h hx hd
+  | B _ ok h =>
+    obtain ⟨t, _, _, _, _, hdb, _, _⟩ := debounce_window a ok h
+    simp only [callRebalance, hdb]
+    exact hx.congr ⟨rfl, rfl, rfl, rfl, rfl, rfl, rfl⟩
+
+theorem notifyOverlapped_keeps {s : LSt} (k : Nat) (h : Inv s) (hd : s.dead = false) :
+    Keeps s (notifyOverlapped s k).2 (notifyOverlapped s k).1 := by
+  refine Keeps.of_noASS (notifyOverlapped_noASS s k) fun hx => ?_
+  cases h with
+  | dead hx => rw [hd] at hx; cases hx
+  | pre _ ok h => rw [notifyOverlapped_closed s k h.balancing h.lockHeld h.obsNil]; exact Exact.of_dead rfl
+  | C _ ok h => rw [notifyOverlapped_closed s k h.balancing h.lockHeld h.obsNil]; exact Exact.of_dead rfl
+  | A _ ok h =>
+    rw [notifyOverlapped_streaming s k h.balancing h.lockHeld h.obsNil]
+    have e := duringClose_data (closeCore { s with lockHeld := true, balancing := true } false).1 s.now k
+    refine Exact.zero ?_ ?_
+    · show (duringClose _ s.now k).1.isOpen = false
+      rw [e.isOpen]; simp
+    · show (duringClose _ s.now k).1.active = 0
+      rw [e.active]; exact closeCore_active_zero_reb false h hx hd
+  | B _ ok h =>
+    obtain ⟨t, _, _, _, _, hdb, _, _⟩ := debounce_window s.now ok h
+    simp only [notifyOverlapped, hdb]
+    exact hx.congr ⟨rfl, rfl, rfl, rfl, rfl, rfl, rfl⟩
+
+/-- the reopen in `rebalance()` starts an exact session, whatever the count was; a queued `Rebalance()` that gets
+    the lock at once closes it again: every requested stream answers, the count is 0 -/
+theorem rebalanceFires_exact (s : LSt) (a : Nat) (hd : s.dead = false) : Exact (rebalanceFires s a).1 := by
+  by_cases hq : s.queuedCalls > 0
+  · rw [rebalanceFires_queued s a hq, rebalanceLocked_streaming (reopened s (s.queuedCalls - 1)) a rfl rfl hd]
+    refine Exact.zero (by simp [armTimer]) ?_
+    show (closeCore _ false).1.active = 0
+    rw [closeCore_active]
+    show (reopened s (s.queuedCalls - 1)).active - ((live (reopened s (s.queuedCalls - 1))).length : Int) = 0
+    rw [reopened_active_live]; omega
+  · rw [rebalanceFires_plain s a (by omega)]
+    exact Exact.fresh rfl rfl rfl
+
+theorem fireOne_keeps {s : LSt} {t : Timer} (h : Inv s) (hd : s.dead = false) (ht : t ∈ s.timers)
+    (hp : t.pending = true) : Keeps s (fireOne s t).2 (fireOne s t).1 := by
+  have ok' : ∀ ok : TimersOk s, TimersOk (setTimer s { t with pending := false }) := fun ok => ok.setTimer ht rfl
+  have hReb : Inv (setTimer s { t with pending := false }) → t.kind = .Reb →
+      Keeps s (fireOne s t).2 (fireOne s t).1 := by
+    intro hi hk
+    rw [fireOne_Reb s hk]
+    have hn : LObs.cb .ASS ∉ (callRebalance (setTimer s { t with pending := false }) t.deadline).2.filter silent :=
+      fun hx => callRebalance_noASS _ _ (List.mem_filter.1 hx).1
+    refine Keeps.of_noASS hn fun hx => ?_
+    exact callRebalance_keeps t.deadline hi hd (Or.inl (hx.congr ⟨rfl, rfl, rfl, rfl, rfl, rfl, rfl⟩))
+  cases h with
+  | dead hx => rw [hd] at hx; cases hx
+  | pre _ ok h => exact hReb (.pre hd (ok' ok) { h with noReb := h.noReb.fire t }) (h.noReb t ht hp)
+  | A _ ok h => exact hReb (.A hd (ok' ok) { h with noReb := h.noReb.fire t }) (h.noReb t ht hp)
+  | C _ ok h => exact hReb (.C hd (ok' ok) { h with noReb := h.noReb.fire t }) (h.noReb t ht hp)
+  | B _ ok h =>
+    cases hk : t.kind with
+    | Reb => exact hReb (.B hd (ok' ok) ⟨h.1.congr rfl rfl rfl rfl rfl rfl rfl rfl rfl, h.2.fire_Reb ok ht hk⟩) hk
+    | reb =>
+      rw [fireOne_reb s hk]
+      exact Keeps.of_exact (rebalanceFires_exact _ _ hd)
+
+theorem fireDue_keeps (upto fuel : Nat) {s : LSt} (h : Inv s) :
+    Keeps s (fireDue upto fuel s).2 (fireDue upto fuel s).1 := by
+  induction fuel generalizing s with
+  | zero => exact Keeps.refl s
+  | succ fuel ih =>
+    rw [fireDue_succ]
+    cases hd : s.dead with
+    | true => exact Keeps.refl s
+    | false =>
+      simp only [Bool.false_eq_true, if_false]
+      cases hdue : dueTimer s upto with
+      | none => exact Keeps.refl s
+      | some t =>
+        obtain ⟨ht, hp, _⟩ := dueTimer_some hdue
+        exact (fireOne_keeps h hd ht hp).trans (ih (fireOne_good h hd ht hp).inv)
+
+/-- **server hypothesis for one op**: a non-transient end that is counted belongs to an assigned vBucket whose stream
+    has not finally ended in this session -/
+def EndFits (s : LSt) (op : LOp) : Prop :=
+  ∀ vb c, op = .endEv vb c → countsEnd s op = true → vb ∈ vbs s.lo s.hi ∧ vb ∉ s.endedVbs
+
+theorem listenEnd_keeps {s : LSt} (vb : Nat) (c : EndCause) (h : Inv s) (hd : s.dead = false)
+    (hst : s.stopClosed = false) (hf : EndFits s (.endEv vb c)) :
+    Keeps s (listenEnd s vb c).2 (listenEnd s vb c).1 := by
+  refine Keeps.of_noASS (listenEnd_noASS s vb c) fun hx => ?_
+  cases h with
+  | dead hx => rw [hd] at hx; cases hx
+  | pre _ _ h => rw [listenEnd_closed s vb c h.closedObs]; exact hx
+  | B _ _ h => rw [listenEnd_closed s vb c h.1.closedObs]; exact hx
+  | C _ _ h => rw [listenEnd_closed s vb c h.closedObs]; exact hx
+  | A _ _ h =>
+    by_cases hc : c = .transient
+    · subst hc
+      rw [listenEnd_transient_A vb h]
+      split
+      · exact hx
+      · exact Exact.of_dead rfl
+    · obtain ⟨hin, hnew⟩ := hf vb c rfl (by simp [countsEnd, hc, h.closedObs, hst, hd])
+      obtain ⟨ha, hsub⟩ := (hx hd).1 h.isOpen
+      have key : Exact { s with active := s.active - 1, endedVbs := endedAdd s.endedVbs vb } := by
+        intro _
+        refine ⟨fun _ => ⟨?_, ?_⟩, fun hc' => ?_⟩
+        · show s.active - 1 = ((vbs s.lo s.hi).length : Int) - ((endedAdd s.endedVbs vb).length : Int)
+          rw [endedAdd_of_not_mem hnew, ha]; simp; omega
+        · intro v hv
+          rcases mem_endedAdd.1 hv with hv | rfl
+          · exact hsub v hv
+          · exact hin
+        · have : s.isOpen = false := hc'
+          rw [h.isOpen] at this; cases this
+      rw [listenEnd_final_A vb h hc]
+      split
+      · split <;> exact key.congr ⟨rfl, rfl, rfl, rfl, rfl, rfl, rfl⟩
+      · exact key
+
+theorem stepCore_keeps {s : LSt} (op : LOp) (h : Inv s) (hd : s.dead = false) (hig : ignored s op = false)
+    (hopen : OpenOk s op) (hf : EndFits s op) : Keeps s (stepCore s op).2 (stepCore s op).1 := by
+  cases op with
+  | member lo hi => exact Keeps.same (by simp [stepCore]) ⟨rfl, rfl, rfl, rfl, rfl, rfl, rfl⟩
+  | setStore vb q => exact Keeps.same (by simp [stepCore]) ⟨rfl, rfl, rfl, rfl, rfl, rfl, rfl⟩
+  | query => exact Keeps.same (by simp [stepCore]) ⟨rfl, rfl, rfl, rfl, rfl, rfl, rfl⟩
+  | «open» => exact Keeps.of_exact (Exact.fresh rfl rfl rfl)
+  | notify => exact callRebalance_keeps s.now h hd
+  | notifyApi =>
+    simp only [stepCore]
+    split
+    · exact callRebalance_keeps s.now h hd
+    · exact Keeps.same (by simp) (SameData.refl s)
+  | notifyDuringClose k => exact notifyOverlapped_keeps k h hd
+  | tick d =>
+    have g := fireDue_keeps (s.now + d) 64 h
+    intro hx
+    exact (g hx).congr ⟨rfl, rfl, rfl, rfl, rfl, rfl, rfl⟩
+  | endEv vb c => exact listenEnd_keeps vb c h hd (ignored_false_stop hig (by simp)) hf
+  | ev vb =>
+    refine Keeps.of_noASS (evStep_noASS s vb) fun hx => ?_
+    show Exact (evStep s vb).1
+    cases h with
+    | dead hx => rw [hd] at hx; cases hx
+    | pre _ _ h => rw [evStep_closed s vb h.closedObs]; exact hx
+    | B _ _ h => rw [evStep_closed s vb h.1.closedObs]; exact hx
+    | C _ _ h => rw [evStep_closed s vb h.closedObs]; exact hx
+    | A _ _ h =>
+      rw [evStep_A vb h]
+      split
+      · exact hx
+      · exact hx.congr ⟨rfl, rfl, rfl, rfl, rfl, rfl, rfl⟩
+  | save =>
+    obtain ⟨w, hw⟩ := saveStep_out s
+    have e := saveStep_fields s
+    refine Keeps.same (s' := (saveStep s).1) ?_ ⟨e.dead, e.isOpen, e.everOpened, e.active, e.lo, e.hi, e.endedVbs⟩
+    show LObs.cb .ASS ∉ (saveStep s).2
+    rw [hw]; exact writtens_noASS w
+  | shutdown c =>
+    rw [stepCore_shutdown]
+    obtain ⟨w, hw⟩ := finalSave_out s
+    have hn : LObs.cb .ASS ∉ (finalSave s).2 ++ (closeOp (finalSave s).1 c).2 := by
+      intro hx
+      rcases List.mem_append.1 hx with hx | hx
+      · rw [hw] at hx; exact writtens_noASS w hx
+      · exact closeOp_noASS _ c hx
+    refine Keeps.of_noASS hn fun hx => ?_
+    have g := finalSave_good h hd
+    have hd1 : (finalSave s).1.dead = false := (finalSave_dead s).trans hd
+    have e := finalSave_fields s
+    have hx1 : Exact (finalSave s).1 :=
+      hx.congr (s' := (finalSave s).1) ⟨e.dead, e.isOpen, e.everOpened, e.active, e.lo, e.hi, e.endedVbs⟩
+    by_cases hnil : (finalSave s).1.obsNil = true
+    · rw [closeOp_nil _ c hnil]; exact Exact.of_dead rfl
+    · have hnil' : (finalSave s).1.obsNil = false := by simpa using hnil
+      rw [closeOp_open _ c hnil']
+      have hA1 : PhA (finalSave s).1 := by
+        cases g.inv with
+        | dead hx' => rw [hd1] at hx'; cases hx'
+        | pre _ _ h' => rw [h'.obsNil] at hnil'; cases hnil'
+        | B _ _ h' => rw [h'.1.obsNil] at hnil'; cases hnil'
+        | C _ _ h' => rw [h'.obsNil] at hnil'; cases hnil'
+        | A _ _ h' => exact h'
+      exact Exact.zero (by simp) (closeCore_active_zero c hA1 hx1 hd1)
+
+/-- the hypothesis as it is used: the end fits, or the step reopens anyway (then the new session is exact whatever
+    the old count was) -/
+def EndOk (s : LSt) (op : LOp) : Prop := EndFits s op ∨ LObs.cb .ASS ∈ (step s op).2
+
+theorem EndFits.of_not_end {s : LSt} {op : LOp} (h : ∀ vb c, op ≠ .endEv vb c) : EndFits s op :=
+  fun vb c e => absurd e (h vb c)
+
+/-- **the exact count is kept by every op** that satisfies the server hypothesis -/
+theorem step_exact {s : LSt} (op : LOp) (h : Inv s) (hopen : OpenOk s op) (hx : Exact s) (he : EndOk s op) :
+    Exact (step s op).1 := by
+  by_cases hd : s.dead = true
+  · rw [dead_step s op hd]; exact hx
+  · have hd' : s.dead = false := by simpa using hd
+    by_cases hi : ignored s op = true
+    · rw [step_eq, if_neg hd, if_pos hi]; exact hx
+    · have hi' : ignored s op = false := by simpa using hi
+      have g := stepCore_good op h hd' hopen
+      have hfd := fireDue_keeps (stepCore s op).1.now 64 g.inv
+      rcases he with hf | hass
+      · rw [step_of_live hd' hi']
+        exact hfd (Or.inl (stepCore_keeps op h hd' hi' hopen hf (Or.inl hx)))
+      · rw [step_of_live hd' hi'] at hass ⊢
+        rcases List.mem_append.1 hass with h1 | h2
+        · -- the op itself (re)opens: it is not a stream end
+          have hf : EndFits s op := by
+            intro vb c e
+            subst e
+            exact absurd h1 (listenEnd_noASS s vb c)
+          exact hfd (Or.inl (stepCore_keeps op h hd' hi' hopen hf (Or.inl hx)))
+        · exact hfd (Or.inr h2)
+
+/-- the hypothesis along a run -/
+def EndsOk (s : LSt) : List LOp → Prop
+  | [] => True
+  | op :: r => EndOk s op ∧ EndsOk (step s op).1 r
+
+/-- **the run theorem for the exact count** -/
+theorem run_exact {s : LSt} {ops : List LOp} (h : Inv s) (hok : OpsOk s ops) (hx : Exact s) (he : EndsOk s ops) :
+    Exact (run s ops) := by
+  induction ops generalizing s with
+  | nil => exact hx
+  | cons op r ih =>
+    rw [run_cons]
+    exact ih (step_good op h hok.1).inv hok.2 (step_exact op h hok.1 hx he.1) he.2
+
+/-- **`window_active_zero`.** In the rebalance window (phase B) the active count is exactly 0 under the exact count … -/
+theorem window_active_zero {s : LSt} (hW : PhW s) (hx : Exact s) (hd : s.dead = false) : s.active = 0 :=
+  (hx hd).2 hW.isOpen hW.everOpened
+
+/-- … and never positive in ANY reachable window state (`PhW.activeLe`: no server hypothesis): an end that was counted
+    twice, or for an unassigned vBucket, leaves the count negative for the rest of the window -/
+theorem window_active_nonpos {s : LSt} (h : Inv s) (hd : s.dead = false) (hb : s.balancing = true) : s.active ≤ 0 :=
+  (h.phB hd hb).1.activeLe
 
 end GoDcp.Life
